@@ -41,8 +41,20 @@ def t_rename(c, rng):
     return d, (lambda outs: outs)
 
 
+def has_cat(x):
+    return isinstance(x, Cat) or (isinstance(x, Fl) and any(has_cat(y) for y in x.cs))
+
+
+def several_cats(t):
+    """an expression with two or more concatenated dimensions pairs its pieces with the other side in an order that depends on the
+    order of these dimensions (leftmost varies slowest): permuting them is another operation, not the same one on a transposed tensor"""
+    return sum(1 for x in t if has_cat(x)) >= 2
+
+
 def t_perm_in(c, rng):
     d = clone(c)
+    if any(several_cats(t) for t in d.ins + d.outs):
+        return None
     ks = [k for k, t in enumerate(d.ins) if sum(1 for x in t if unmarked_dim(x)) >= 2 and shape_of(t) == tuple(np.shape(d.arrays[k]))]
     if not ks:
         return None
@@ -83,6 +95,8 @@ def t_perm_out(c, rng):
     if c.family == "update_at":
         return None
     d = clone(c)
+    if any(several_cats(t) for t in d.ins + d.outs):
+        return None
     ks = [k for k, t in enumerate(d.outs) if sum(1 for x in t if unmarked_dim(x)) >= 2]
     if not ks:
         return None
